@@ -67,8 +67,11 @@ fn gen_list(src: &mut Src, floats: bool) -> J {
 
 /// something that is not an array (or nothing at all)
 fn gen_non_array(src: &mut Src) -> Option<J> {
-    match src.below(6) {
+    match src.below(8) {
         0 => None,
+        // a string that spells a JSON array is a string (other dialects would parse it)
+        6 => Some(J::Str(src.pick(&["[]", "[1]", "[0, \"a\"]", "[\"a\",\"b\"]", "[null]", "[[1]]"]).to_string())),
+        7 => Some(J::Obj(vec![])),
         1 => Some(J::Obj(vec![("0".into(), J::Int(1))])),
         2 => Some(J::Str("abc".into())),
         3 => Some(J::Int(1)),
@@ -199,9 +202,11 @@ fn random_forms(src: &mut Src, obs: &mut Obs) -> Res {
             let arg = if f == "length" { Arg::Q(Query { abs: false, segs: vec![] }) } else { Arg::Q(relq(vec![Sel::Wild])) };
             (
                 Arg::F(Func { name: f.into(), args: vec![arg] }),
-                elems.into_iter().map(|x| match src.below(3) {
+                elems.into_iter().map(|x| match src.below(5) {
                     0 => J::Arr(vec![x]),
                     1 => J::Arr(vec![x.clone(), J::Null, x]),
+                    2 => J::Obj(vec![("k".into(), x.clone()), ("l".into(), x)]),
+                    3 => J::Obj(vec![("k".into(), x)]),
                     _ => J::Str("ab".into()),
                 }).collect(),
             )
